@@ -679,6 +679,10 @@ class AbstractPathModelDAG(ABC):
             return True
 
         # self.write_model(f"model-{self.id}.lp")
+        # Results cached from an earlier call of solve() do not belong to the model that is solved now
+        self._solution = None
+        self.edge_vars_sol = {}
+
         start_time = time.perf_counter()
         self.solver.optimize()
         self.solve_statistics[f"milp_solve_time_for_num_paths_{self.k}"] = (
